@@ -33,7 +33,7 @@ def first_para(notes, tag):
             return part.strip()[:1500]
     return notes[:1500]
 
-for d in sorted(glob.glob('/tmp/seeded-in/*') + glob.glob('/tmp/seeded-in-r2/*')):
+for d in sorted(glob.glob('/tmp/seeded-in/*') + glob.glob('/tmp/seeded-in-r2/*') + glob.glob('/tmp/seeded-in-r3/*')):
     pid = os.path.basename(d)
     notes = open(os.path.join(d, 'notes.md')).read() if os.path.exists(os.path.join(d, 'notes.md')) else ''
     for v in ('A', 'B'):
@@ -53,13 +53,13 @@ for d in sorted(glob.glob('/tmp/seeded-in/*') + glob.glob('/tmp/seeded-in-r2/*')
         caught = sorted(k for k, x in det.items() if x['exit'] == 1)
         meta = {
             'name': name,
-            'breaks_property': (pid[2:] if pid.startswith('R2') else pid) if not pid.startswith('F') else {'F1': 'C10', 'F2': 'C10', 'F3': 'C11'}[pid],
-            'origin': ('independent sub-agent given only the property text and a scratch worktree' + (' (second round)' if pid.startswith('R2') else '')) if not pid.startswith('F') else 'reverse of the fix: commit in /repo (re-introduces the genuine defect)',
+            'breaks_property': (pid[2:] if pid[0] == 'R' else pid) if not pid.startswith('F') else {'F1': 'C10', 'F2': 'C10', 'F3': 'C11'}[pid],
+            'origin': ('independent sub-agent given only the property text and a scratch worktree' + (' (round %s)' % pid[1] if pid[0] == 'R' else '')) if not pid.startswith('F') else 'reverse of the fix: commit in /repo (re-introduces the genuine defect)',
             'what_and_what_it_needs': first_para(notes, v) if notes else 'see DESIGN.md section 4',
             'confirmed_independently': confirm.get(name, {}),
             'checks_run': 'tools/mutant_matrix.sh: patch applied to a private copy of /repo, every check at quick tier, default seed; replay of the first violation re-run in a fresh process',
             'detected_by': {k: det[k] for k in caught},
-            'not_detected_by_own_property_check': ((pid[2:] if pid.startswith('R2') else pid) not in caught) if not pid.startswith('F') else None,
+            'not_detected_by_own_property_check': ((pid[2:] if pid[0] == 'R' else pid) not in caught) if not pid.startswith('F') else None,
         }
         json.dump(meta, open(os.path.join(out, 'meta.json'), 'w'), indent=1)
         print(name, 'caught by', ','.join(caught) or '-')
